@@ -24,7 +24,7 @@ func constStr(v ssa.Value) (string, bool) {
 }
 
 func rulesC05(c *Ctx, r *Report) {
-	r.explain("Decides: (G3) every byte the tokenizer treats specially (all constants its input byte is compared with) is either in the writer's quoting set or substituted by the writer with a non-special byte; the reader's unquoted substitution only concerns bytes the writer quotes; space<->underscore and quote doubling/undoubling are inverse pairs; the writer quotes exactly when the name contains a byte of the quoting set, the reader unquotes exactly tokens of length >= 2 that start and end with a quote, dropping exactly the first and last byte; the input byte is classified by nothing but those constant comparisons; (DIST0) the ':'+distance suffix is written for negative, positive and NaN distances and omitted exactly for 0; it is written with fmt.Fprint after a string operand (no space inserted); (END) MarshalText ends with ';' after the recursive writer; outside names the writer emits only '(' ')' ',' ':' — condensed, no whitespace; children are written in slice order separated by ',' between '(' and ')'; (CHILD) the reader only ever appends to a node's children; (G1) Write emits exactly MarshalText's bytes; (PASS-ALL) Reader hands on every tree. Not decided: shape and branch-length equality of the round trip; the tokenizer's quote state machine; float formatting/parsing (trusted to fmt/strconv). Added rules: (TOK) all 2048 (inside quotes, after a quote, token pending, byte) transitions of the tokenizer match the Newick token grammar; (PARSE) all 120 (state, token kind, top level, number parses) transitions of the tree parser match the Newick grammar up to state renaming; (NUM-WIDTH); (LINE-WHOLE) no bounded ReadSlice; (A6-SCHED). Entry points (shared with C06/C18, restricted to this package): FD, A6, NIL-HANDLE. (END, extended) the writer never compares Children with nil — an empty non-nil list is a leaf; (LAYER).")
+	r.explain("Decides: (G3) every byte the tokenizer treats specially (all constants its input byte is compared with) is either in the writer's quoting set or substituted by the writer with a non-special byte; the reader's unquoted substitution only concerns bytes the writer quotes; space<->underscore and quote doubling/undoubling are inverse pairs; the writer quotes exactly when the name contains a byte of the quoting set, the reader unquotes exactly tokens of length >= 2 that start and end with a quote, dropping exactly the first and last byte; the input byte is classified by nothing but those constant comparisons; (DIST0) the ':'+distance suffix is written for negative, positive and NaN distances and omitted exactly for 0; it is written with fmt.Fprint after a string operand (no space inserted); (END) MarshalText ends with ';' after the recursive writer; outside names the writer emits only '(' ')' ',' ':' — condensed, no whitespace; children are written in slice order separated by ',' between '(' and ')'; (CHILD) the reader only ever appends to a node's children; (G1) Write emits exactly MarshalText's bytes; (PASS-ALL) Reader hands on every tree. Not decided: shape and branch-length equality of the round trip; the tokenizer's quote state machine; float formatting/parsing (trusted to fmt/strconv). Added rules: (TOK) all 2048 (inside quotes, after a quote, token pending, byte) transitions of the tokenizer match the Newick token grammar; (PARSE) all 120 (state, token kind, top level, number parses) transitions of the tree parser match the Newick grammar up to state renaming; (NUM-WIDTH); (LINE-WHOLE) no bounded ReadSlice; (A6-SCHED). Entry points (shared with C06/C18, restricted to this package): FD, A6, NIL-HANDLE. (END, extended) the writer never compares Children with nil — an empty non-nil list is a leaf; (LAYER). PARSE additionally: a name is decoded from its token exactly once; END additionally: MarshalText hands its own receiver to the writer; the writer may be split into a node part and a children part, or be a method of a buffer holder.")
 	r.assume("strings.ContainsAny/ReplaceAll behave as documented; fmt.Fprint inserts a space only between two non-string operands")
 	ruleG1(c, r, "formats/newick", "Node")
 	rulesNewickNames(c, r)
